@@ -174,7 +174,7 @@ def verify(contract_cls, repo=None, timeout_ms=None):
         return res
     cases = list((c.cases or {"all": None}).items())
     for label, casef in cases:
-        ctx = Ctx(timeout_ms=timeout_ms or c.timeout_ms)
+        ctx = Ctx(timeout_ms=max(timeout_ms or 0, c.timeout_ms))
         it = Interp(ctx, c, repo)
         it.config = dict(c.config)
         cx = Harness(ctx, it, c, label)
